@@ -267,6 +267,13 @@ pub fn run(ctx: &mut Ctx) {
             }
             cc.push(CliCase { msg_hex: hex_lower(&m), stdin: i % 2 == 0 });
         }
+        // the upper end of the quantified lengths (10^6 +- 1) and the sizes where buffers usually change hands,
+        // through both channels: a cap or a chunked reader in the command shows only here
+        for len in [65_536usize, 65_537, 999_999, 1_000_000, 1_000_001, 1_048_577] {
+            let m = p.bytes(len);
+            cc.push(CliCase { msg_hex: hex_lower(&m), stdin: true });
+            cc.push(CliCase { msg_hex: hex_lower(&m), stdin: false });
+        }
         // contents that look like another encoding or carry a marker (BOM, hex/JSON look-alikes, white-space
         // framing, option-like text, NULs): each through the file and the stdin channel
         for t in crate::gen::TRICKY_BYTES {
